@@ -148,7 +148,10 @@ TXNS = [
     {'description': 'RENT r5', 'amount': 1200.0, 'date': '2025-02-02', 'field': None, 'source': 'Bank'},
     {'description': 'netflix.com r7', 'amount': -15.99, 'date': '2025-04-05', 'field': {}, 'source': ''},
 ]
-ROWS = {'orders': [{'amount': 25.0, 'item': 'Dinner'}, {'amount': 12.0, 'item': 'Beans'}]}
+# 'date' values are ISO strings here and become date objects in the process (as load_supplemental_sources does);
+# one row keeps an unparseable date cell as a string, as the loader would
+ROWS = {'orders': [{'amount': 25.0, 'item': 'Dinner', 'date': '2025-01-07'}, {'amount': 12.0, 'item': 'Beans', 'date': '2025-02-01'},
+                   {'amount': 3.0, 'item': 'Later', 'date': 'Pending'}]}
 
 # expressions built to collide in a mis-keyed cache
 EXPRS = [
@@ -184,6 +187,7 @@ ENGINE_TEXTS = [RULE_FILES['a.rules'], RULE_FILES['b.rules'], RULE_FILES['e.rule
 
 
 GEN_MATCH = ['contains("UBER")', 'contains("UBER") and contains("EATS")', 'contains("COFFEE")', 'amount > 10', 'contains("NETFLIX")',
+             'date >= "2025-02-01"', 'any(r.date >= "2025-01-06" for r in orders if r.amount == txn.amount)',
              'contains("COFFEE") and amount > 3', 'regex("\\\\S+ r1")']
 GEN_NAMES = ['Uber', 'Uber Eats', 'Coffee', 'Any', 'Netflix', 'Big']
 GEN_CATS = [('Transport', 'Rideshare'), ('Food', 'Delivery'), ('Food', 'Coffee'), ('Misc', 'Other'), ('Fun', 'TV')]
@@ -195,7 +199,7 @@ def gen_rules_text(rng, focus=False):
     return gen_general_text(rng)
 
 
-FOCUS_MATCH = ['contains("UBER")', 'contains("UBER") and contains("EATS")', 'amount > 10', 'contains("EATS")']
+FOCUS_MATCH = ['contains("UBER")', 'contains("UBER") and contains("EATS")', 'amount > 10', 'contains("EATS")', 'date >= "2025-01-06"']
 
 
 def gen_focus_text(rng):
@@ -280,6 +284,9 @@ COLLISION_GROUPS = [
     ['extract("(\\S+) r")', 'regex("(\\S+) r")'],
     ['len([r for r in orders if r.amount == txn.amount]) > 0', 'r.amount', 'r'],
     ['description == "NETFLIX r1"', 'description == "netflix R1"', 'DESCRIPTION == "NETFLIX r1"'],
+    ['date >= "2025-01-06"', 'date >= "2025-02-01"', '"2025-01-06" <= date', 'date == "2025-01-05"',
+     'len([r for r in orders if r.date >= "2025-01-06"]) > 0', 'any(r.item == "Later" for r in orders if r.date >= "2025-01-06")',
+     'description >= "2025-01-06"'],
     ['extract("(N\\w+)")', 'extract("(n\\W+)")', 'EXTRACT("(N\\w+)")'],
 ]
 FILTER_GROUPS = [['category == "Food"', 'category=="Food"', 'CATEGORY == "food"', 'category == "FOOD"'], ['total > 10', 'total>10', 'TOTAL > 10'],
@@ -459,7 +466,15 @@ class State:
         self.rules = []
         self.transforms = []
         self.engines = {}
+        import datetime
         self.rows = {k: [dict(r) for r in v] for k, v in ROWS.items()}
+        for rs in self.rows.values():
+            for r in rs:
+                try:
+                    y, m, d = (int(x) for x in str(r.get('date', '')).split('-'))
+                    r['date'] = datetime.date(y, m, d)
+                except ValueError:
+                    pass
 
 
 def frame(st):
